@@ -96,11 +96,68 @@ def check_roundtrip(name, o, rng):
     return fails
 
 
+def check_history(name, o, rng):
+    """what is computed from an object depends on its current content only: an object that was encoded, sized and compared
+    before, then edited in place, is held to the same contracts as a fresh one (real bytes vs reference layout of the
+    CURRENT content, round trip, gaps)"""
+    from harness import edits
+    try:
+        cc.real_write(name, o)
+        cc.real_nbytes(name, o)
+        o == o
+        repr(o)
+    except Exception:
+        return []           # reported by the plain checks
+    fails = []
+    # refused requests leave the object as valid as it was
+    try:
+        before = cc.encode(name, o)[0]
+        calls = edits.refused_operations(name, o, rng)
+    except Exception:
+        calls = []
+    if any("(accepted)" in c for c in calls):
+        return []           # a request this suite expected to be refused was accepted: C15 / C16 / C19 judge that, not this clause
+    if calls:
+        fl = cc.check_write(name, o) + check_roundtrip(name, o, rng)
+        try:
+            if cc.encode(name, o)[0] != before:
+                fl.append(cc._fail("RT.content", name, "the content of the object changed", cc.describe(name, o)))
+        except Exception as e:
+            fl.append(cc._fail("RT.content", name, f"the object is no longer well-formed: {e!r}", cc.describe(name, o)))
+        for f in fl:
+            f["message"] = f"after refused requests {calls}: " + f["message"]
+        fails += fl
+        if fails:
+            return fails
+    for sp in (False, True):
+        try:
+            desc = edits.edit_in_place(name, o, rng, size_preserving=sp)
+        except Exception as e:
+            return fails
+        if desc is None:
+            continue
+        fl = cc.check_write(name, o) + check_roundtrip(name, o, rng)
+        if name in gen.TRACK_GEN:
+            fl += cc.check_gaps(name, o, rng)
+        for f in fl:
+            f["message"] = f"after an in-place edit of an object that had been encoded before ({desc[:160]}): " + f["message"]
+        fails += fl
+        if fails:
+            break
+        try:
+            cc.real_nbytes(name, o)
+            o == o
+        except Exception:
+            pass
+    return fails
+
+
 CHECKS = {
     "write": lambda name, o, rng: cc.check_write(name, o),
     "build": lambda name, o, rng: cc.check_build(name, o, rng),
     "roundtrip": check_roundtrip,
     "gaps": lambda name, o, rng: cc.check_gaps(name, o, rng) if name in gen.TRACK_GEN else [],
+    "history": check_history,
 }
 
 
@@ -112,6 +169,9 @@ def run_recipe(recipe, checks):
     for c in checks:
         if c == "gaps" and recipe["kind"] != "track":
             continue
+        if c == "history":      # own object and own randomness: independent of which other checks ran before (replay)
+            o, _ = make(recipe)
+            rng = random.Random(f"{recipe['seed']}:{recipe['layout']}:{recipe['index']}:{recipe.get('n')}:{recipe.get('mask')}:history")
         for f in CHECKS[c](name, o, rng):
             f["recipe"] = recipe
             f["check"] = c
